@@ -208,3 +208,14 @@ package keeper
 //@   modifies get(ctx, "assets", assetKey(assetID)), heap["x/assets/types.StakingAssetInfo"]
 //@   ensures[C01.usami.total] err == nil ==> assetRaw(ctx, assetID) != nil && assetInfo(ctx, assetID).StakingTotalAmount == old(assetInfo(ctx, assetID).StakingTotalAmount)
 //@   ensures[C01.usami.atomic,C09.usami.atomic] err != nil ==> state(ctx) == old(state(ctx))
+
+// C18 (the exported document holds every collection of the module's store): each field of the exported state is what the
+// accessor of its own collection returned.
+//@ func (Keeper).ExportGenesis
+//@   flag noframe
+//@   flag pure=GetParams,GetAllClientChainInfo,GetAllStakingAssetsInfo,AllDeposits,AllOperatorAssets,Wrap,Error
+//@   ensures[C18.axg.params]  defined(res_GetParams_0) && r0.Params == *res_GetParams_0
+//@   ensures[C18.axg.chains]  defined(res_GetAllClientChainInfo_0) && r0.ClientChains == res_GetAllClientChainInfo_0
+//@   ensures[C18.axg.tokens]  defined(res_GetAllStakingAssetsInfo_0) && r0.Tokens == res_GetAllStakingAssetsInfo_0
+//@   ensures[C18.axg.deposits] defined(res_AllDeposits_0) && r0.Deposits == res_AllDeposits_0
+//@   ensures[C18.axg.pools]   defined(res_AllOperatorAssets_0) && r0.OperatorAssets == res_AllOperatorAssets_0
